@@ -4,8 +4,10 @@ import Mathlib.LinearAlgebra.Matrix.PosDef
 import Mathlib.LinearAlgebra.Matrix.NonsingularInverse
 import Mathlib.Data.Matrix.ColumnRowPartitioned
 import Mathlib.Algebra.BigOperators.Fin
+import Mathlib.Algebra.BigOperators.Field
 import Mathlib.Tactic.NoncommRing
 import Mathlib.Algebra.Order.Star.Real
+import Mathlib.Analysis.Matrix.Order
 /-!
 # Helper lemmas for C13 (filters)
 
@@ -254,7 +256,7 @@ def devSig (V : Matrix (Fin q) (Fin n) ℝ) : Sigma ℝ n q :=
 
 theorem sigmaPoints_eq (msqrt : Matrix (Fin n) (Fin n) ℝ → Matrix (Fin n) (Fin n) ℝ) (x : Fin n → ℝ) (P : Matrix (Fin n) (Fin n) ℝ) (kk : ℝ) :
     sigmaPoints msqrt x P kk = sig x (msqrt (((n : ℝ) + kk) • P)) := by
-  simp only [sigmaPoints, Sigma.memo_eq, MemoM.mfn_of, MemoM.mfn_of', msmul_eq', k_real, vadd_eq, vsub_eq]
+  simp only [sigmaPoints, Sigma.memo_eq, MemoM.mfn_of', msmul_eq', k_real, vadd_eq, vsub_eq]
   rfl
 
 theorem mulVec_colv (T : Matrix (Fin q) (Fin n) ℝ) (L : Matrix (Fin n) (Fin n) ℝ) (i : Fin n) :
@@ -301,4 +303,311 @@ theorem cov_devSig (a b : ℝ) (V : Matrix (Fin q) (Fin n) ℝ) (W : Matrix (Fin
   ring
 
 end sigma
+end PP.Filter
+
+namespace PP.Filter
+open Matrix
+
+/-! ### weighted sample covariances are positive semidefinite; Schur complement -/
+
+section schur
+variable {n q r : Nat}
+
+theorem vecMulVec_self_psd {ι : Type} [Fintype ι] (z : ι → ℝ) : (vecMulVec z z).PosSemidef := by
+  have h := posSemidef_vecMulVec_self_star z
+  have hz : star z = z := by funext i; simp
+  rwa [hz] at h
+
+/-- `Sigma.cov` as a Mathlib matrix -/
+noncomputable def covM (a b : ℝ) (s : Sigma ℝ n q) (t : Sigma ℝ n r) : Matrix (Fin q) (Fin r) ℝ := Matrix.of (s.cov a b t)
+
+theorem cov_eq_covM (a b : ℝ) (s : Sigma ℝ n q) (t : Sigma ℝ n r) : s.cov a b t = covM a b s t := rfl
+
+theorem covM_apply (a b : ℝ) (s : Sigma ℝ n q) (t : Sigma ℝ n r) (i : Fin q) (j : Fin r) :
+    covM a b s t i j = a * s.c i * t.c j + (∑ l, b * s.plus l i * t.plus l j) + ∑ l, b * s.minus l i * t.minus l j := by
+  simp [covM, Sigma.cov, fsum_eq_sum]
+
+/-- the joint weighted covariance of two families attached to the same sigma set is PSD when the weights
+are non-negative -/
+theorem joint_cov_psd (a b : ℝ) (ha : 0 ≤ a) (hb : 0 ≤ b) (s : Sigma ℝ n q) (t : Sigma ℝ n r) :
+    (fromBlocks (covM a b s s) (covM a b s t) (covM a b t s) (covM a b t t)).PosSemidef := by
+  have key : fromBlocks (covM a b s s) (covM a b s t) (covM a b t s) (covM a b t t)
+      = a • vecMulVec (Sum.elim s.c t.c) (Sum.elim s.c t.c)
+        + ∑ l, b • vecMulVec (Sum.elim (s.plus l) (t.plus l)) (Sum.elim (s.plus l) (t.plus l))
+        + ∑ l, b • vecMulVec (Sum.elim (s.minus l) (t.minus l)) (Sum.elim (s.minus l) (t.minus l)) := by
+    ext (i | i) (j | j) <;>
+      simp [covM_apply, vecMulVec_apply, Matrix.add_apply, Matrix.sum_apply, mul_assoc]
+  rw [key]
+  refine ((vecMulVec_self_psd _).smul ha).add ?_ |>.add ?_
+  · exact posSemidef_sum _ fun l _ => (vecMulVec_self_psd _).smul hb
+  · exact posSemidef_sum _ fun l _ => (vecMulVec_self_psd _).smul hb
+
+theorem covM_transpose (a b : ℝ) (s : Sigma ℝ n q) (t : Sigma ℝ n r) : (covM a b s t)ᵀ = covM a b t s := by
+  ext i j
+  simp only [Matrix.transpose_apply, covM_apply]
+  congr 1
+  · congr 1
+    · ring
+    · exact Finset.sum_congr rfl fun l _ => by ring
+  · exact Finset.sum_congr rfl fun l _ => by ring
+
+theorem covM_self_psd (a b : ℝ) (ha : 0 ≤ a) (hb : 0 ≤ b) (s : Sigma ℝ n q) : (covM a b s s).PosSemidef := by
+  have h := (joint_cov_psd a b ha hb s s).submatrix (Sum.inl : Fin q → Fin q ⊕ Fin q)
+  have e : (fromBlocks (covM a b s s) (covM a b s s) (covM a b s s) (covM a b s s)).submatrix
+      (Sum.inl : Fin q → Fin q ⊕ Fin q) Sum.inl = covM a b s s := by
+    ext i j; simp
+  rwa [e] at h
+
+/-- Schur complement: with `Py = R + cov(t,t)`, `R ≻ 0` and non-negative weights,
+`cov(s,s) − cov(s,t) Py⁻¹ cov(s,t)ᵀ ⪰ 0`. -/
+theorem schur_cov_psd (a b : ℝ) (ha : 0 ≤ a) (hb : 0 ≤ b) (s : Sigma ℝ n q) (t : Sigma ℝ n r)
+    {R : Matrix (Fin r) (Fin r) ℝ} (hR : R.PosDef) :
+    (covM a b s s - covM a b s t * (R + covM a b t t)⁻¹ * (covM a b s t)ᵀ).PosSemidef := by
+  have hPy : (R + covM a b t t).PosDef := hR.add_posSemidef (covM_self_psd a b ha hb t)
+  let _ : Invertible (R + covM a b t t) := hPy.isUnit.invertible
+  have h0 : (fromBlocks (0 : Matrix (Fin q) (Fin q) ℝ) (0 : Matrix (Fin q) (Fin r) ℝ) 0 R).PosSemidef := by
+    let _ : Invertible R := hR.isUnit.invertible
+    have := (hR.fromBlocks₂₂ (0 : Matrix (Fin q) (Fin q) ℝ) (0 : Matrix (Fin q) (Fin r) ℝ)).2
+      (by simpa using PosSemidef.zero)
+    simpa using this
+  have hJ := (joint_cov_psd a b ha hb s t).add h0
+  rw [fromBlocks_add, add_zero, add_zero, add_zero, add_comm (covM a b t t) R, ← covM_transpose a b s t] at hJ
+  have := (hPy.fromBlocks₂₂ (covM a b s s) (covM a b s t)).1
+  rw [conjTranspose_eq_transpose_of_trivial] at this
+  exact this hJ
+
+end schur
+end PP.Filter
+
+namespace PP.Filter
+open Matrix
+
+/-! ### particle filter: softmax, cumulative sums, searchsorted, moments -/
+
+section pf
+variable {N n : Nat}
+
+theorem fcount_eq_sum : ∀ {N : Nat} (p : Fin N → Bool), fcount p = ∑ i, if p i then 1 else 0
+  | 0, p => by simp [fcount]
+  | N+1, p => by rw [fcount, fcount_eq_sum, Fin.sum_univ_succ]
+
+theorem fcount_eq_card (p : Fin N → Bool) : fcount p = (Finset.univ.filter fun i => p i = true).card := by
+  rw [fcount_eq_sum, Finset.card_filter]
+
+theorem searchsorted_eq_card (cs : Fin N → ℝ) (r : ℝ) :
+    searchsorted cs r = (Finset.univ.filter fun i => cs i < r).card := by
+  simp [searchsorted, fcount_eq_card, lt_real]
+
+/-- `searchsorted` on a non-decreasing sequence is the lower bound: it is `≤ i` exactly when `r ≤ cs i`. -/
+theorem searchsorted_le_iff (cs : Fin N → ℝ) (hmono : Monotone cs) (r : ℝ) (i : Fin N) :
+    searchsorted cs r ≤ i.val ↔ r ≤ cs i := by
+  rw [searchsorted_eq_card]
+  constructor
+  · intro h
+    by_contra hlt
+    rw [not_le] at hlt
+    have hsub : Finset.univ.filter (fun j : Fin N => j ≤ i) ⊆ Finset.univ.filter fun j => cs j < r := by
+      intro j hj
+      simp only [Finset.mem_filter, Finset.mem_univ, true_and] at hj ⊢
+      exact lt_of_le_of_lt (hmono hj) hlt
+    have hc := Finset.card_le_card hsub
+    have : (Finset.univ.filter (fun j : Fin N => j ≤ i)).card = i.val + 1 := by
+      have : Finset.univ.filter (fun j : Fin N => j ≤ i) = Finset.Iic i := by ext j; simp
+      rw [this, Fin.card_Iic]
+    omega
+  · intro h
+    have hsub : (Finset.univ.filter fun j => cs j < r) ⊆ Finset.univ.filter (fun j : Fin N => j < i) := by
+      intro j hj
+      simp only [Finset.mem_filter, Finset.mem_univ, true_and] at hj ⊢
+      by_contra hji
+      rw [not_lt] at hji
+      exact absurd (lt_of_lt_of_le hj h) (not_lt.mpr (hmono hji))
+    have hc := Finset.card_le_card hsub
+    have : (Finset.univ.filter (fun j : Fin N => j < i)).card = i.val := by
+      have : Finset.univ.filter (fun j : Fin N => j < i) = Finset.Iio i := by ext j; simp
+      rw [this, Fin.card_Iio]
+    omega
+
+theorem searchsorted_le_size (cs : Fin N → ℝ) (r : ℝ) : searchsorted cs r ≤ N := by
+  rw [searchsorted_eq_card]
+  exact (Finset.card_filter_le _ _).trans (by simp)
+
+/-- `cumsum` is the prefix sum -/
+theorem cumsum_eq (w : Fin N → ℝ) (i : Fin N) : cumsum w i = ∑ j ∈ Finset.univ.filter (fun j : Fin N => j ≤ i), w j := by
+  simp only [cumsum, fsum_eq_sum]
+  refine Finset.sum_bij (fun j _ => (⟨j.val, by have := j.isLt; have := i.isLt; omega⟩ : Fin N)) ?_ ?_ ?_ ?_
+  · intro j _
+    simp only [Finset.mem_filter, Finset.mem_univ, true_and]
+    exact Fin.le_def.2 (by have := j.isLt; simp only; omega)
+  · intro a _ b _ h
+    exact Fin.ext (by simpa using congrArg Fin.val h)
+  · intro j hj
+    simp only [Finset.mem_filter, Finset.mem_univ, true_and] at hj
+    exact ⟨⟨j.val, by have := Fin.le_def.1 hj; omega⟩, Finset.mem_univ _, rfl⟩
+  · intro j _; rfl
+
+theorem cumsum_mono (w : Fin N → ℝ) (hw : ∀ i, 0 ≤ w i) : Monotone (cumsum w) := by
+  intro i j hij
+  rw [cumsum_eq, cumsum_eq]
+  apply Finset.sum_le_sum_of_subset_of_nonneg
+  · intro k hk
+    simp only [Finset.mem_filter, Finset.mem_univ, true_and] at hk ⊢
+    exact hk.trans hij
+  · intro k _ _; exact hw k
+
+theorem cumsum_last (w : Fin N → ℝ) (i : Fin N) (hi : i.val + 1 = N) : cumsum w i = ∑ j, w j := by
+  rw [cumsum_eq]
+  congr 1
+  ext j
+  simp only [Finset.mem_filter, Finset.mem_univ, true_and, iff_true]
+  exact Fin.le_def.2 (by have := j.isLt; omega)
+
+end pf
+end PP.Filter
+
+namespace PP.Filter
+open Matrix
+
+section pf2
+variable {N n : Nat}
+
+/-- the max-shift inside `softmax` cancels: `softmax l i = exp(l i) / Σ_j exp(l j)` -/
+theorem softmax_fn (l : Fin N → ℝ) (i : Fin N) :
+    (softmax l).fn i = Real.exp (l i) / ∑ j, Real.exp (l j) := by
+  simp only [softmax, MemoV.fn_of, fsum_eq_sum, exp_real]
+  generalize vmax l = c
+  simp only [Real.exp_sub, ← Finset.sum_div]
+  rw [div_div_div_cancel_right₀ (Real.exp_ne_zero c)]
+
+theorem softmax_pos (l : Fin N → ℝ) (i : Fin N) : 0 < (softmax l).fn i := by
+  rw [softmax_fn]
+  exact div_pos (Real.exp_pos _) (Finset.sum_pos' (fun j _ => (Real.exp_pos _).le) ⟨i, Finset.mem_univ _, Real.exp_pos _⟩)
+
+theorem softmax_sum (l : Fin N → ℝ) (hN : 0 < N) : ∑ i, (softmax l).fn i = 1 := by
+  simp only [softmax_fn, ← Finset.sum_div]
+  have : 0 < ∑ j, Real.exp (l j) :=
+    Finset.sum_pos' (fun j _ => (Real.exp_pos _).le) ⟨⟨0, hN⟩, Finset.mem_univ _, Real.exp_pos _⟩
+  exact div_self this.ne'
+
+/-- a common additive constant in the log-likelihoods does not change the weights -/
+theorem softmax_shift (l : Fin N → ℝ) (c : ℝ) : (softmax fun i => l i - c).fn = (softmax l).fn := by
+  funext i
+  simp only [softmax_fn, Real.exp_sub, ← Finset.sum_div]
+  rw [div_div_div_cancel_right₀ (Real.exp_ne_zero c)]
+
+/-- mean and covariance of `pfMoments` in Mathlib terms -/
+theorem pfMoments_x (Q : Matrix (Fin n) (Fin n) ℝ) (xr : Fin N → Fin n → ℝ) :
+    (pfMoments Q xr).x = fun a => (∑ j, xr j a) / N := by
+  simp only [pfMoments, MemoV.fn_of, fsum_eq_sum, k_real]
+
+theorem pfMoments_P (Q : Matrix (Fin n) (Fin n) ℝ) (xr : Fin N → Fin n → ℝ) :
+    (pfMoments Q xr).P = Q + (1 / (N : ℝ)) • ∑ j, vecMulVec (xr j - (pfMoments Q xr).x) (xr j - (pfMoments Q xr).x) := by
+  funext a b
+  simp only [pfMoments, MemoV.fn_of, MemoM.mfn_of, fsum_eq_sum, k_real, vsub_eq, Matrix.add_apply, Matrix.smul_apply,
+    Matrix.sum_apply, vecMulVec_apply, Pi.sub_apply, smul_eq_mul]
+  rw [one_div, inv_mul_eq_div]
+
+theorem pfMoments_P_psd {Q : Matrix (Fin n) (Fin n) ℝ} (hQ : Q.PosSemidef) (xr : Fin N → Fin n → ℝ) :
+    Matrix.PosSemidef (pfMoments Q xr).P := by
+  rw [pfMoments_P]
+  refine hQ.add (PosSemidef.smul (posSemidef_sum _ fun j _ => vecMulVec_self_psd _) ?_)
+  positivity
+
+end pf2
+end PP.Filter
+
+namespace PP.Filter
+section pf3
+variable {N : Nat}
+
+theorem cumsum_zero (w : Fin N → ℝ) (i : Fin N) (hi : i.val = 0) : cumsum w i = w i := by
+  rw [cumsum_eq]
+  have : Finset.univ.filter (fun j : Fin N => j ≤ i) = {i} := by
+    ext j
+    simp only [Finset.mem_filter, Finset.mem_univ, true_and, Finset.mem_singleton]
+    constructor
+    · intro h; exact Fin.ext (by have := Fin.le_def.1 h; omega)
+    · rintro rfl; exact le_refl _
+  rw [this, Finset.sum_singleton]
+
+theorem cumsum_succ (w : Fin N → ℝ) (i j : Fin N) (hij : j.val = i.val + 1) : cumsum w j = cumsum w i + w j := by
+  rw [cumsum_eq, cumsum_eq]
+  have : Finset.univ.filter (fun k : Fin N => k ≤ j) = insert j (Finset.univ.filter (fun k : Fin N => k ≤ i)) := by
+    ext k
+    simp only [Finset.mem_filter, Finset.mem_univ, true_and, Finset.mem_insert, Fin.le_def, Fin.ext_iff]
+    omega
+  rw [this, Finset.sum_insert, add_comm]
+  simp only [Finset.mem_filter, Finset.mem_univ, true_and, Fin.le_def]
+  omega
+
+end pf3
+end PP.Filter
+
+namespace PP.Filter
+open Matrix
+
+/-! ### the Kalman gain minimises the error covariance among all linear updates -/
+
+section optimal
+variable {n p : Nat}
+
+/-- error covariance of the linear update `x⁺ = x⁻ + G (y − ŷ)` (Joseph form) -/
+def updateCov (Pm : Matrix (Fin n) (Fin n) ℝ) (C : Matrix (Fin p) (Fin n) ℝ) (R : Matrix (Fin p) (Fin p) ℝ)
+    (G : Matrix (Fin n) (Fin p) ℝ) : Matrix (Fin n) (Fin n) ℝ :=
+  (1 - G * C) * Pm * (1 - G * C)ᵀ + G * R * Gᵀ
+
+theorem updateCov_sub_kalman (Pm : Matrix (Fin n) (Fin n) ℝ) (C : Matrix (Fin p) (Fin n) ℝ)
+    (R : Matrix (Fin p) (Fin p) ℝ) (hPm : Pm.PosSemidef) (hR : R.PosDef) (G : Matrix (Fin n) (Fin p) ℝ) :
+    updateCov Pm C R G - (Pm - Pm * Cᵀ * (C * Pm * Cᵀ + R)⁻¹ * C * Pm)
+      = (G - Pm * Cᵀ * (C * Pm * Cᵀ + R)⁻¹) * (C * Pm * Cᵀ + R) * (G - Pm * Cᵀ * (C * Pm * Cᵀ + R)⁻¹)ᵀ := by
+  have hSpd := innovCov_pd (C := C) hPm hR
+  have hS := PosDef.isUnit_det' hSpd
+  have hSsym : (C * Pm * Cᵀ + R)ᵀ = C * Pm * Cᵀ + R := hSpd.isHermitian
+  have hPsym : Pmᵀ = Pm := hPm.isHermitian
+  set S := C * Pm * Cᵀ + R with hSdef
+  set M := Pm * Cᵀ with hM
+  have hMT : Mᵀ = C * Pm := by rw [hM, Matrix.transpose_mul, Matrix.transpose_transpose, hPsym]
+  have hJ : updateCov Pm C R G = Pm - G * Mᵀ - M * Gᵀ + G * S * Gᵀ := by
+    have e1 : (1 - G * C)ᵀ = 1 - Cᵀ * Gᵀ := by
+      rw [Matrix.transpose_sub, Matrix.transpose_one, Matrix.transpose_mul]
+    have e2 : G * S * Gᵀ = G * (C * Pm * Cᵀ) * Gᵀ + G * R * Gᵀ := by
+      rw [hSdef, Matrix.mul_add, Matrix.add_mul]
+    rw [updateCov, e1, e2, hMT, hM]
+    simp only [Matrix.sub_mul, Matrix.mul_sub, Matrix.one_mul, Matrix.mul_one, Matrix.mul_assoc]
+    abel
+  have hK : (G - M * S⁻¹) * S * (G - M * S⁻¹)ᵀ = G * S * Gᵀ - G * Mᵀ - M * Gᵀ + M * S⁻¹ * Mᵀ := by
+    have e1 : (G - M * S⁻¹) * S = G * S - M := by
+      rw [Matrix.sub_mul, Matrix.nonsing_inv_mul_cancel_right _ _ hS]
+    have e2 : (G - M * S⁻¹)ᵀ = Gᵀ - S⁻¹ * Mᵀ := by
+      rw [Matrix.transpose_sub, Matrix.transpose_mul, Matrix.transpose_nonsing_inv, hSsym]
+    have e3 : G * S * (S⁻¹ * Mᵀ) = G * Mᵀ := by
+      rw [Matrix.mul_assoc G S, Matrix.mul_nonsing_inv_cancel_left _ _ hS]
+    rw [e1, e2, Matrix.sub_mul, Matrix.mul_sub, Matrix.mul_sub, e3, ← Matrix.mul_assoc M]
+    abel
+  rw [hJ, hK, Matrix.mul_assoc (M * S⁻¹) C Pm, ← hMT]
+  abel
+
+end optimal
+end PP.Filter
+
+namespace PP.Filter
+open Matrix
+open scoped MatrixOrder
+
+/-- the square-root contract of `UKF.msqrt` is satisfiable in every dimension -/
+theorem exists_msqrt (n : Nat) : ∃ msqrt : Matrix (Fin n) (Fin n) ℝ → Matrix (Fin n) (Fin n) ℝ,
+    ∀ M : Matrix (Fin n) (Fin n) ℝ, M.PosSemidef → msqrt M * (msqrt M)ᵀ = M := by
+  classical
+  refine ⟨fun M => if h : M.PosSemidef then
+    (Classical.choose (CStarAlgebra.nonneg_iff_eq_star_mul_self.mp h.nonneg))ᵀ else 0, ?_⟩
+  intro M hM
+  have := Classical.choose_spec (CStarAlgebra.nonneg_iff_eq_star_mul_self.mp hM.nonneg)
+  simp only [hM, dif_pos, transpose_transpose]
+  conv_rhs => rw [this]
+  simp [star_eq_conjTranspose]
+
+/-- the `pinv` contract is satisfiable -/
+theorem exists_pinv (p : Nat) : ∃ pinv : Matrix (Fin p) (Fin p) ℝ → Matrix (Fin p) (Fin p) ℝ,
+    ∀ S : Matrix (Fin p) (Fin p) ℝ, IsUnit S.det → pinv S = S⁻¹ := ⟨fun S => S⁻¹, fun _ _ => rfl⟩
+
 end PP.Filter
